@@ -29,7 +29,9 @@ class AutoTrace(Trace):
         self.mgr = _autoref.BDD()
         self.slots = {}
         self._n = 0
-        super().__init__(tid, names, bdd=self.mgr, seed=seed, meta=meta)
+        # views=True: after every call the four order views are read THROUGH THE
+        # WRAPPER (autoref.BDD.vars is an alias of the manager's dict, kept by reference)
+        super().__init__(tid, names, bdd=self.mgr, seed=seed, meta=meta, views=True)
 
     def _emit(self, op, a, ret, exc, pre=None, expect_ok=True, extra=None):
         if exc or op in ('gc', 'shutdown'):
@@ -85,7 +87,8 @@ def pick(tr, rng):
 def autoref_history(tid, seed, nvars, steps, dyn=False):
     rng = random.Random(seed)
     names = history.ALL_NAMES[:nvars]
-    tr = AutoTrace(tid, names, seed=seed,
+    spare = ['s1', 's2']            # declared LATER in the history (after reorderings)
+    tr = AutoTrace(tid, names + spare, seed=seed,
                    meta=dict(driver='autoref_history', seed=seed, dyn=dyn))
     m = tr.mgr
     for nm in names:
@@ -106,7 +109,11 @@ def autoref_history(tid, seed, nvars, steps, dyn=False):
                 c = 0.75
             if ns < 2:
                 c = 0.0
-            if c < 0.10:
+            if c < 0.02 and step > steps // 3 and spare:
+                nm = spare.pop(0)      # a late declaration: every view must show it
+                tr.call('add_var', dict(name=nm, level=-1),
+                        lambda: (m.declare(nm), m.level_of_var(nm))[1])
+            elif c < 0.10:
                 nm = rng.choice(names)
                 tr.do('var', dict(name=nm), lambda: m.var(nm))
             elif c < 0.30:
@@ -136,12 +143,6 @@ def autoref_history(tid, seed, nvars, steps, dyn=False):
                         x |= g
                         return x
                     tr.do('apply', dict(op='or', args=[int(f), int(g)]), aug_or)
-                elif k == 7:
-                    def aug_xor():
-                        x = f
-                        x ^= g
-                        return x
-                    tr.do('apply', dict(op='xor', args=[int(f), int(g)]), aug_xor)
                 else:
                     sym = rng.choice(history.BIN_OPS)
                     tr.do('apply', dict(op=sym, args=[int(f), int(g)]), lambda: m.apply(sym, f, g))
@@ -224,7 +225,7 @@ def autoref_history(tid, seed, nvars, steps, dyn=False):
                     tr.call('sift', dict(), lambda: (m.reorder(), 0)[1])
             else:
                 if nvars >= 2:
-                    o = list(names)
+                    o = list(m.vars)          # every declared variable (late declarations included)
                     rng.shuffle(o)
                     tr.call('reorder', dict(order=o),
                             lambda: (m.reorder({x: i for i, x in enumerate(o)}), 0)[1])
@@ -252,4 +253,49 @@ def autoref_history(tid, seed, nvars, steps, dyn=False):
         raw.incref(1)
     except Exception:
         pass
+    return tr
+
+
+def failed_load_history(tid, seed, tmpdir):
+    """C17 through the wrapper: a `load` that is refused (the file's levels
+    conflict with the receiver's), then later declarations and reorderings;
+    the views read through dd.autoref.BDD must keep describing the order."""
+    import os
+    rng = random.Random(seed)
+    n = rng.choice([2, 3, 4])
+    names = history.ALL_NAMES[:n]
+    order = rng.sample(names, n)
+    tr = AutoTrace(tid, names + ['s1', 's2'], seed=seed,
+                   meta=dict(driver='autoref_failed_load', seed=seed))
+    m = tr.mgr
+    for nm in order:
+        tr.call('add_var', dict(name=nm, level=-1), lambda nm=nm: m.add_var(nm))
+    f = None
+    for nm in names:
+        tr.do('var', dict(name=nm), lambda nm=nm: m.var(nm))
+    for _ in range(3):
+        f, g = pick(tr, rng), pick(tr, rng)
+        tr.do('apply', dict(op='xor', args=[int(f), int(g)]), lambda: m.apply('xor', f, g))
+    # a file whose levels conflict with this manager's
+    other = _autoref.BDD()
+    rev = list(reversed(order))
+    other.declare(*rev)
+    g = other.add_expr(' /\\ '.join(rev))
+    os.makedirs(tmpdir, exist_ok=True)
+    fn = os.path.join(tmpdir, 'conflict_%d_%d.p' % (os.getpid(), tid))
+    other.dump(fn, roots=[g])
+    del g
+    tr.call('reject', dict(kind='load', detail='conflicting levels'), lambda: (m.load(fn), 0)[1], expect_ok=False)
+    # life goes on
+    tr.call('add_var', dict(name='s1', level=-1), lambda: (m.declare('s1'), m.level_of_var('s1'))[1])
+    tr.do('var', dict(name='s1'), lambda: m.var('s1'))
+    if n >= 2:
+        o = list(m.vars)
+        rng.shuffle(o)
+        tr.call('reorder', dict(order=o), lambda: (m.reorder({v: i for i, v in enumerate(o)}), 0)[1])
+    tr.call('add_var', dict(name='s2', level=-1), lambda: (m.declare('s2'), m.level_of_var('s2'))[1])
+    tr.call('sift', dict(), lambda: (m.reorder(), 0)[1])
+    for k in list(tr.slots):
+        tr.drop(k)
+    tr.call('gc', dict(), lambda: (m.collect_garbage(), 0)[1])
     return tr
